@@ -57,6 +57,7 @@ class SimSocket(object):
         self.closed = False
         self.connected_to = None
         self.recv_calls = 0
+        self.peer_reset = False      # the peer has reset the connection (RST): what was received before can still be read
 
     # -- receiving side
     def readable(self):
@@ -89,6 +90,14 @@ class SimSocket(object):
 
     def connect(self, addr):
         self.connected_to = addr
+
+    def shutdown(self, how):
+        import errno
+        import socket as _socket
+        if self.closed:
+            raise _socket.error(errno.EBADF, 'shutdown on closed socket')
+        if self.peer_reset:
+            raise _socket.error(errno.ENOTCONN, 'Transport endpoint is not connected')
 
     def close(self):
         self.closed = True
